@@ -56,7 +56,11 @@ def gen_case(seed, idx):
     if rng.random() < 0.5:
         acts.append({"t": rng.choice([0, 100, 800, 2000]), "op": "lookup", "name": rng.choice(["sb." + TB, "nosuch." + TB, "s1." + TA]), "timeout": rng.choice([500, 3000, 8000])})
     if n_reg and rng.random() < 0.3:
-        acts.append({"t": rng.choice([900, 1500, 2600]), "op": rng.choice(["unregister", "update"]), "i": 0})
+        # only after service 0 has been handed to register (updating a never-registered info and then registering the
+        # same object makes the instance answer its own probes with the renamed object: an endless rename loop that has
+        # nothing to do with shutdown)
+        t0 = next(a["t"] for a in acts if a["op"] == "register" and a["i"] == 0)
+        acts.append({"t": t0 + rng.choice([360, 900, 1500, 2600]), "op": rng.choice(["unregister", "update"]), "i": 0})
     if rng.random() < 0.25:
         acts.append({"t": rng.choice([0, 700, 2000]), "op": "browse-tracked", "type": TB})
     horizon = rng.choice([400, 1000, 2500, 4000, 12000])
@@ -112,6 +116,9 @@ def simulate(case, close_at, want_blocks=True):
     orig_block = sim.block
 
     def block(kind, obj=None, **kw):
+        src["n"] = src.get("n", 0) + 1
+        if src["n"] > 400000:   # a scenario that never lets virtual time advance: infrastructure error, not a verdict
+            sim.loop.stop()
         return orig_block(kind, obj, flags=snap(), **kw)
 
     sim.block = block
@@ -235,6 +242,7 @@ def simulate(case, close_at, want_blocks=True):
         obs["marks"]["close_called"] = sim.now()
         stask.cancel()   # API calls after the close are the caller's business, not "in progress" work
         obs["registry_at_close"] = sorted(i.name for i in za.registry.async_get_service_infos())
+        tracked_at_close = list(aza.async_browsers.values())
         late = None
         if case["late_action"]:
             async def late_job():
@@ -251,6 +259,8 @@ def simulate(case, close_at, want_blocks=True):
         obs["marks"]["n_callbacks_at_return"] = len(obs["callbacks"])
         obs["marks"]["n_attempts_at_return"] = len(sim.sends_after_close)
         obs["state_after_close"] = state_digest(za, aza)
+        obs["tracked_not_cancelled"] = sum(1 for br in tracked_at_close
+                                           if not (br.done and br.query_scheduler._next_run is None and br not in za.record_manager.listeners))
         await sim.sleep_ms(case["second_close_after"])
         obs["marks"]["second_close_called"] = sim.now()
         n_before = len(obs["sends"])
@@ -326,6 +336,8 @@ def evaluate(res, case, obs):
                     % obs["state_after_close"]["registry"]))
     elif changed:
         bad.append(("C17:second-close-changes-state", "closing again changed %s" % changed))
+    if obs.get("tracked_not_cancelled"):
+        bad.append(("C17:tracked-browser-not-cancelled", "%d browsers registered through AsyncZeroconf are still live (scheduler armed or listening) after close returned" % obs["tracked_not_cancelled"]))
     st = obs["state_after_close"]
     if not (st["done"] and st["transports_closed"] and st["cleanup_cancelled"] and not st["running"]):
         bad.append(("C17:not-shut-down", "after close returned: %s" % st))
@@ -415,7 +427,7 @@ def run_case(res, case, ctx, acc):
     res.count("close-duration:%d" % (mk["close_returned"] - mk["close_called"]))
     bad = evaluate(res, case, obs)
     for sig, what in bad:
-        res.violate(sig, what, {"case": dict(case, close_at=close_at), "marks": mk, "registry_at_close": obs["registry_at_close"],
+        violate_limited(res, sig, what, {"case": dict(case, close_at=close_at), "marks": mk, "registry_at_close": obs["registry_at_close"],
                                 "registry_log": obs["registry_log"], "api_errors": obs["api_errors"][:5]})
     acc.append((dict(case, close_at=close_at), obs))
     return bad
@@ -457,6 +469,13 @@ def flush_model(res, ctx, acc):
                 break
 
 
+def violate_limited(res, sig, what, case, per_sig=3):
+    """`Result.violations` is capped: repeated reports of one (possibly known) signature must not crowd out a new one"""
+    res.count("violations:" + sig)
+    if sum(1 for v in res.violations if v["sig"] == sig) < per_sig:
+        res.violate(sig, what, case)
+
+
 def run(ctx):
     res = C.Result("C17")
     res.rule = ("generated scenarios on a real instance with a traffic-producing peer; close requested at a block time of a dry run (+-1 ms) or a random "
@@ -466,7 +485,7 @@ def run(ctx):
     for name, body in C.load_corpus("C17"):
         run_case(res, body["case"], ctx, acc)
         res.count("corpus")
-    n = C.Budget(ctx["tier"], 120, 3000).n
+    n = C.Budget(ctx["tier"], 220, 4000).n
     if ctx["widened"]:
         n *= 4
     for idx in range(n):
